@@ -65,6 +65,22 @@ func genSignature(rt *rapid.T) []sigInput {
 		}
 		sig[i].shadowed = rapid.IntRange(0, 5).Draw(rt, "shadowed") == 0
 	}
+	if n >= 2 && rapid.IntRange(0, 3).Draw(rt, "siblings") == 0 {
+		// inputs whose declarations are nearly the same: every further input repeats the first one's
+		// dimensions with one of them redrawn (a shape that fits one of them almost fits the other)
+		for i := 1; i < n; i++ {
+			sig[i].dims = append([]sigDim(nil), sig[0].dims...)
+			a := rapid.IntRange(0, len(sig[i].dims)-1).Draw(rt, "siblingAxis")
+			switch rapid.IntRange(0, 3).Draw(rt, "siblingKind") {
+			case 0:
+				sig[i].dims[a] = sigDim{kind: "symbolic", name: rapid.SampledFrom([]string{"batch", "N", "seq"}).Draw(rt, "param")}
+			case 1:
+				sig[i].dims[a] = sigDim{kind: "unspecified"}
+			default:
+				sig[i].dims[a] = sigDim{kind: "fixed", size: rapid.IntRange(1, 5).Draw(rt, "size")}
+			}
+		}
+	}
 	if n >= 2 && rapid.IntRange(0, 7).Draw(rt, "allDefaults") == 0 {
 		// a model whose inputs all have defaults (every subset of them is a valid call)
 		for i := range sig {
@@ -389,6 +405,41 @@ func TestC13(t *testing.T) {
 			if pr.panicked || pr.err != nil {
 				rt.Fatalf("C13 violated by %v: a conforming input set (before the set under test) was rejected: %v %v", sig, pr.err, pr.panicVal)
 			}
+		case 3, 4:
+			// an earlier accepted Run that hands the shapes of the set under test to the inputs whose
+			// declaration they fit (another assignment of the same shapes to names)
+			prior := gonnx.Tensors{}
+			var pool [][]int
+			for _, k := range keys {
+				pool = append(pool, supplied[k])
+			}
+			for _, in := range sig {
+				var fits [][]int
+				for _, s := range pool {
+					ok := len(s) == len(in.dims) && prod(s) > 0
+					for a := 0; ok && a < len(s); a++ {
+						ok = in.dims[a].kind != "fixed" || s[a] == in.dims[a].size
+					}
+					if ok {
+						fits = append(fits, s)
+					}
+				}
+				var ps []int
+				switch {
+				case len(fits) > 0:
+					ps = fits[rapid.IntRange(0, len(fits)-1).Draw(rt, "priorFit")]
+				case in.shadowed:
+					continue
+				default:
+					ps = conformingShape(rt, in)
+				}
+				prior[in.name] = mkT(ps, backingOf(tensor.Float32, prod(ps), func(j int) float64 { return float64(j%5) - 2 }))
+			}
+			pr := runModel(m, prior)
+			ev.Class("C13", "after-an-accepted-run-with-the-same-shapes-under-other-names")
+			if pr.panicked || pr.err != nil {
+				rt.Fatalf("C13 violated by %v: a conforming input set %v (before the set under test) was rejected: %v %v", sig, shapesOf(prior), pr.err, pr.panicVal)
+			}
 		case 2:
 			pr := runModel(m, gonnx.Tensors{"unrelated": mkT([]int{2}, []float32{1, 2})})
 			ev.Class("C13", "after-a-refused-run")
@@ -474,4 +525,17 @@ func TestC13(t *testing.T) {
 			}
 		}
 	})
+}
+
+func shapesOf(ts gonnx.Tensors) string {
+	var ks []string
+	for k := range ts {
+		ks = append(ks, k)
+	}
+	sort.Strings(ks)
+	out := ""
+	for _, k := range ks {
+		out += fmt.Sprintf(" %s%v", k, ts[k].Shape())
+	}
+	return out
 }
